@@ -89,7 +89,16 @@ pub fn worker_handle(line: &str) -> String {
                 Ok(u) => {
                     let extras: Vec<String> = u.extras.iter().map(|e| hex(e.as_ref())).collect();
                     let w: String = if warns.is_empty() { "-".into() } else { warns.iter().collect() };
-                    format!("ok given={} url={} extras={} marker={} w={}", hex(u.url.given().unwrap_or("")), hex(&u.url.to_string()), if extras.is_empty() { "-".to_string() } else { extras.join(";") }, dump(&u.marker), w)
+                    // Display, and the round trip of the rendered text (judged by the parent)
+                    let shown = u.to_string();
+                    let rt = match std::panic::catch_unwind(|| pep508_rs::UnnamedRequirement::<VerbatimUrl>::parse(&shown, "/work", &mut pep508_rs::TracingReporter)) {
+                        Ok(Ok(u2)) => if u2.url == u.url && u2.extras == u.extras && u2.marker == u.marker { "1" } else { "0" },
+                        Ok(Err(_)) => "err",
+                        Err(_) => "panic",
+                    };
+                    let mtext = u.marker.contents().map(|c| hex(&c.to_string())).unwrap_or("none".into());
+                    let carve = u.marker.is_false();
+                    format!("ok given={} url={} extras={} marker={} w={} shown={} mtext={} rt={} carve={}", hex(u.url.given().unwrap_or("")), hex(&u.url.to_string()), if extras.is_empty() { "-".to_string() } else { extras.join(";") }, dump(&u.marker), w, hex(&shown), mtext, rt, carve as u8)
                 }
                 Err(e) => {
                     let rendered = std::panic::catch_unwind(std::panic::AssertUnwindSafe(|| e.to_string())).ok();
@@ -234,7 +243,22 @@ pub fn unnamed_case(out: &mut Out, w: &mut Worker, rc: &mut ReqCases, text: &str
         out.stat("unnamed.err");
         if ans.contains("disp=0") { out.oracle_fail("C06", "UnnamedRequirement error cannot be formatted", input.clone()); }
         if ans.contains("boundary=0") { out.oracle_fail("C06", "UnnamedRequirement error span does not start on a char boundary", input.clone()); }
-    } else { out.stat("unnamed.ok"); }
+    } else {
+        out.stat("unnamed.ok");
+        let field = |k: &str| ans.split(' ').find_map(|f| f.strip_prefix(k)).unwrap_or("").to_string();
+        let (given, url, extras, shown, mtext, rt, carve) = (unhex(&field("given=")), field("url="), field("extras="), field("shown="), field("mtext="), field("rt="), field("carve="));
+        // Display against its model
+        rc.lines.push(format!("showunnamed\t{}\t{}\t{}", url, extras, mtext));
+        rc.envs.push(vars.to_vec());
+        out.impl_out.push(shown.clone());
+        out.evaluations += 1;
+        // the rendered text parses back to an equal value (URL texts without brackets; FALSE / deprecated keys by equivalence only)
+        let deprecated = ["os.name", "sys.platform", "platform.machine", "platform.python_implementation", "platform.version", "python_implementation"].iter().any(|k| text.contains(k));
+        if !given.contains('[') && !given.contains(']') && !unhex(&url).contains('[') && carve != "1" && !deprecated && rt != "1" {
+            out.oracle_fail("C19", &format!("the rendered unnamed requirement does not parse back to an equal value (round trip: {rt})"), serde_json::json!({"text": text, "rendered": unhex(&shown), "feature": "non-pep508-extensions"}));
+        }
+        out.stat(&format!("unnamed.roundtrip_{rt}"));
+    }
     ans
 }
 
@@ -244,7 +268,8 @@ fn corr_part(ans: &str) -> String {
     } else if ans.starts_with("panic") || ans == "dead" {
         "panic".to_string()
     } else {
-        ans.replace(" ENTRYPOINTS-DIFFER", "")
+        let a = ans.replace(" ENTRYPOINTS-DIFFER", "");
+        match a.find(" shown=") { Some(i) => a[..i].to_string(), None => a }
     }
 }
 
